@@ -71,6 +71,32 @@ def run(ctx):
                                   {"pattern": p, "pattern_hex": hx(p.encode()), "distinguishing_string": show_runes(w), "distinguishing_runes": w,
                                    "in_automaton": dfa_accepts(parse_dfa(i[3:]), w), "in_documented_language": dfa_accepts(parse_dfa(s[3:]), w),
                                    "implementation": i[:1500], "documented": s[:1500], "model_of_code": m[:1500], "model_with_findings_repaired": mf[:1500]})
+    # the automaton of a *token*: the same pattern written as the only token definition of a specification and taken through
+    # spec.Parse and Spec.DFA() must have the language of the pattern's automaton (Spec.DFA has its own loop around the
+    # pattern pipeline; a short cut there is invisible to the calls above)
+    from .c03 import parse_specdfa
+    writable = [(k, p) for k, p in enumerate(pats) if p and "/" not in p and all(32 <= ord(c) < 127 for c in p) and sw.impl_nfa[k].startswith("OK ")]
+    if quick and len(writable) > 700:
+        writable = writable[:400] + [writable[k] for k in sorted(rng.sample(range(400, len(writable)), 300))]
+    tok_lines = [hx(("grammar g;\nstart = TK;\nTK = /%s/;\n" % p).encode()) for _, p in writable]
+    tok_out = ctx.run_impl_par("specdfa", tok_lines, timeout=900, isolate=True)
+    stats["token_automata_compared"] = 0
+    for (k, p), o in zip(writable, tok_out):
+        g = parse_specdfa(o)
+        if g["kind"] == "PARSEERR":
+            continue        # not writable as a REGEX lexeme after all (the scanner's business: C05)
+        if g["kind"] != "OK":
+            ctx.add_violation("a pattern that the pattern pipeline accepts is rejected (or crashes) as a token definition",
+                              {"pattern": p, "pattern_hex": hx(p.encode()), "as_token": decode_hex_fields(o)[:600]})
+            continue
+        if [d for d in g["defs"] if d[0] == "TK"] != [("TK", p, True)]:
+            continue        # the scanner delivered another text than the one written (C05's subject)
+        stats["token_automata_compared"] += 1
+        w = dfa_diff(parse_dfa(sw.impl_nfa[k][3:]), g["dfa"])
+        if w is not None:
+            ctx.add_violation("the automaton Spec.DFA builds for a token is not the automaton of its pattern",
+                              {"pattern": p, "pattern_hex": hx(p.encode()), "distinguishing_string": show_runes(w), "distinguishing_runes": w,
+                               "pattern_automaton": sw.impl_nfa[k][:800], "token_automaton": o[:800]})
     ctx.witness_hits()
     cov = {"evaluations": len(pats), "distinct_nontrivial": len(distinct),
            "rule": "a corpus of every construct, class, escape and quantifier form individually, every predefined $NAME pattern, and seeded random patterns (nested groups, alternation, all quantifier forms lazy or not, bracket groups with ranges/classes/negation, \\xHH and \\xHHHH escapes; quantifier-expanded size <= 24); for each accepted pattern the automaton of spec.regexToDFA (parse, NFA, ToDFA, Minimize, EliminateDeadStates, ReindexStates) is compared for full language equality (product exploration, NUL excluded) with (a) the model of the construction and (b) the derivative automaton of the documented meaning; non-trivial = distinct accepted pattern compared",
